@@ -68,7 +68,7 @@ class State:
 
 
 def _proj(v, p):
-    if isinstance(v, (Tup, Adt, Closure, VecV)):
+    if hasattr(v, 'with_item'):
         try:
             return v.items[p]
         except IndexError:
@@ -84,7 +84,7 @@ def _update(v, path, val):
         newc = val
     else:
         newc = _update(_proj(v, p), path[1:], val)
-    if isinstance(v, (Tup, Adt, Closure, VecV)):
+    if hasattr(v, 'with_item'):
         if isinstance(v, Tup) and p >= len(v.items):
             it = list(v.items) + [UNINIT] * (p + 1 - len(v.items)); it[p] = newc
             return Tup(it)
